@@ -129,7 +129,7 @@ def gen_history(rng, case, max_ops=14, mix='all'):
                         'delete': rng.random() < 0.4})
         elif r < 0.84 or (mix == 'force' and r < 0.95):
             ops.append({'op': 'force_chain', 'chain': rng.randrange(nchains),
-                        'picks': [rng.randrange(64) for _ in range(rng.choice([1, 1, 2]))],
+                        'picks': [rng.randrange(64) for _ in range(rng.choice([1, 1, 2, 2, 3]))],
                         'recompute': (not failing) and rng.random() < 0.4, 'delete': rng.random() < 0.4})
         elif r < 0.9:
             failing = rng.random() < 0.6
@@ -409,6 +409,21 @@ Definition hist_model (c : World.world * list op) : list value :=
                              {'op': 'build', 'base': base}, {'op': 'value', 'chain': 0, 'pick': 2},
                              {'op': 'flags', 'chain': 0}, {'op': 'value', 'chain': 0, 'pick': 1},
                              {'op': 'build', 'base': base}, {'op': 'value', 'chain': 1, 'pick': 2}]))
+        # a diamond a -> m -> n, a -> x: forcing lists that name a downstream task before its ancestor
+        dia = [dict(K(0, 'A'), name='a'), dict(K(1, 'M', meta_inputs=[{'cls': 0}]), name='m'),
+               dict(K(2, 'N', meta_inputs=[{'cls': 1}]), name='n'), dict(K(3, 'X', meta_inputs=[{'cls': 0}]), name='x')]
+        for picks, rec, dele in (([1, 0], False, True), ([2, 0], True, False), ([1, 0], True, True), ([0, 1], False, False)):
+            out.append(dict(classes=dia, files={}, base=base, context=None,
+                            ops=[{'op': 'build', 'base': base}, {'op': 'value', 'chain': 0, 'pick': 2},
+                                 {'op': 'value', 'chain': 0, 'pick': 3},
+                                 {'op': 'force_chain', 'chain': 0, 'picks': picks, 'recompute': rec, 'delete': dele},
+                                 {'op': 'flags', 'chain': 0}, {'op': 'has_data', 'chain': 0, 'pick': 0},
+                                 {'op': 'has_data', 'chain': 0, 'pick': 3}, {'op': 'value', 'chain': 0, 'pick': 3},
+                                 {'op': 'value', 'chain': 0, 'pick': 2}, {'op': 'restart'}, {'op': 'build', 'base': base},
+                                 {'op': 'force_task', 'chain': 0, 'pick': 1, 'delete': False},
+                                 {'op': 'force_chain', 'chain': 0, 'picks': [0], 'recompute': False, 'delete': True},
+                                 {'op': 'flags', 'chain': 0}, {'op': 'has_data', 'chain': 0, 'pick': 2},
+                                 {'op': 'value', 'chain': 0, 'pick': 2}]))
         return out
 
     def gen(self, rng, tier):
